@@ -227,6 +227,9 @@ def concrete_values(scratch, harness, harness_timeout=900):
         cands.append({'kind': kind, 'description': desc, 'values': vals})
     failing = [c for c in cands if c['kind'] != 'cover']
     if not failing:
+        # a harness without symbolic inputs (fully concrete) has no values to print: replay it as is
+        if 'VERIFICATION:- FAILED' in out and not re.search(r'let concrete_vals', out):
+            return [{'kind': 'assertion', 'description': '(harness has no symbolic input)', 'values': []}], out
         return None, out
     return failing, out
 
